@@ -4,6 +4,7 @@ import re
 
 import core
 import rxcommon as rx
+import translate
 
 core.setup_repo_path()
 
@@ -11,13 +12,17 @@ core.setup_repo_path()
 class C13(core.Prop):
     pid = 'C13'
     lean_modules = ['TddaVerif.Props.C13']
-    theorems = []
+    theorems = ['TddaVerif.Props.C13.' + t for t in [
+        'each_pattern_has_witness', 'count_le_distinct', 'none_for_empty', 'pruning_subset', 'anchored']]
     quick_n = 500
     thorough_n = 40000
     rule = ('cases: as C03 (example multisets over the exotic alphabet x option subsets x dialects x Size x seeds) plus '
             'max_patterns and min_strings_per_pattern settings, long strings with > 99 coarse runs, and the empty input; '
             'each case is extracted untagged and tagged. non-trivial = >= 2 returned expressions; distinct by content')
     trusted_base = [
+        'as C03: hand-written Lean model of the batch path tied by correspondence on every non-sampling case (here also '
+        'with max_patterns / min_strings_per_pattern and both tag settings); sampling is decided by the oracle only',
+        'theorems speak about the pattern AST; the rendered text is checked with re.compile / re.fullmatch by the oracle',
         'validity of an expression is decided by re.compile, matching by re.fullmatch (CPython re)',
     ]
 
@@ -44,6 +49,25 @@ class C13(core.Prop):
         opts.pop('tag', None)
         return {'examples': ex, 'opts': opts, 'size': rx.gen_size(rng), 'seed': rng.choice([None, 1, 7]),
                 'form': rng.choice(['list', 'dict']), 'prune': prune}
+
+    def translate(self):
+        return translate.regenerate(['Rexpy'])
+
+    def _seed(self, case):
+        return case['seed'] if case['seed'] is not None else 99
+
+    def model_ops(self, case):
+        if not rx.nosampling(case['examples'], case['opts'], case['size']):
+            return []
+        return [rx.model_extract_op(case['examples'], dict(case['opts'], tag=tag, **case['prune']), case['form'])
+                for tag in (False, True)]
+
+    def impl_outputs(self, case):
+        return [rx.impl_rex(case['examples'], dict(case['opts'], tag=tag, **case['prune']), case['size'],
+                            self._seed(case), case['form']) for tag in (False, True)]
+
+    def canon_model(self, case, outs):
+        return rx.canon_rex(outs)
 
     def nontrivial_key(self, case):
         return json.dumps(case, sort_keys=True) if len(set(case['examples'])) >= 2 else None
